@@ -286,3 +286,247 @@ func hasSuffixAny(s string, suffixes ...string) bool {
 }
 
 var _ = token.NoPos
+
+// describeExpr renders an expression in a rename-robust way: local variables are replaced by their origin
+// (param:<name> — parameters keep their name since it is API; call:<calleeID> for a variable bound to a call
+// result; range:<origin> for range variables), selections by field names, calls by resolved callee IDs, constants
+// by value. Used by the record-plumbing rules (E-PLUMB).
+func describeExpr(f *FuncInfo, e ast.Expr, depth int) string {
+	info := f.Info()
+	e = ast.Unparen(e)
+	if tv, ok := info.Types[e]; ok && tv.Value != nil {
+		return "const:" + tv.Value.ExactString()
+	}
+	switch x := e.(type) {
+	case *ast.Ident:
+		switch o := info.Uses[x].(type) {
+		case *types.Var:
+			if o.IsField() {
+				return "field:" + o.Name()
+			}
+			if i := paramIndex(f, o); i >= 0 {
+				return "param#" + itoa(i)
+			}
+			if isLitParam(f, o) {
+				return "litparam"
+			}
+			if recvOf(f) == o {
+				return "recv"
+			}
+			if o.Pkg() != nil && o.Parent() == o.Pkg().Scope() {
+				return "global:" + o.Name()
+			}
+			if depth > 3 {
+				return "var"
+			}
+			defs := defsOfVarWithIndex(f, o)
+			if len(defs) == 1 {
+				return defs[0].describe(f, depth+1)
+			}
+			if len(defs) == 0 {
+				return "var:undefined"
+			}
+			parts := []string{}
+			seen := map[string]bool{}
+			for _, d := range defs {
+				s := d.describe(f, depth+1)
+				if !seen[s] {
+					seen[s] = true
+					parts = append(parts, s)
+				}
+			}
+			sort.Strings(parts)
+			return "{" + strings.Join(parts, "|") + "}"
+		case *types.Const:
+			return "const:" + o.Val().ExactString()
+		case *types.Nil:
+			return "nil"
+		case *types.Func:
+			return "func:" + funcID(o)
+		}
+		return "ident:" + x.Name
+	case *ast.SelectorExpr:
+		if s := info.Selections[x]; s != nil {
+			return describeExpr(f, x.X, depth) + "." + x.Sel.Name
+		}
+		// qualified identifier
+		if o := info.Uses[x.Sel]; o != nil {
+			if fn, ok := o.(*types.Func); ok {
+				return "func:" + funcID(fn)
+			}
+			if o.Pkg() != nil {
+				return "global:" + strings.TrimPrefix(o.Pkg().Path(), modPrefix) + "." + o.Name()
+			}
+		}
+		return "sel:" + x.Sel.Name
+	case *ast.CallExpr:
+		// conversion?
+		if tv, ok := info.Types[x.Fun]; ok && tv.IsType() && len(x.Args) == 1 {
+			return "conv:" + types.TypeString(tv.Type, func(p *types.Package) string { return p.Name() }) + "(" + describeExpr(f, x.Args[0], depth) + ")"
+		}
+		id := calleeID(info, x)
+		args := []string{}
+		for _, a := range x.Args {
+			args = append(args, describeExpr(f, a, depth))
+		}
+		if sel, ok := ast.Unparen(x.Fun).(*ast.SelectorExpr); ok && info.Selections[sel] != nil {
+			return describeExpr(f, sel.X, depth) + "." + sel.Sel.Name + "(" + strings.Join(args, ",") + ")"
+		}
+		if _, isVar := calleeObj(info, x).(*types.Var); isVar {
+			return "call:" + describeExpr(f, x.Fun, depth) + "(" + strings.Join(args, ",") + ")"
+		}
+		return "call:" + id + "(" + strings.Join(args, ",") + ")"
+	case *ast.StarExpr:
+		return "*" + describeExpr(f, x.X, depth)
+	case *ast.UnaryExpr:
+		return x.Op.String() + describeExpr(f, x.X, depth)
+	case *ast.BinaryExpr:
+		return "(" + describeExpr(f, x.X, depth) + x.Op.String() + describeExpr(f, x.Y, depth) + ")"
+	case *ast.IndexExpr:
+		return describeExpr(f, x.X, depth) + "[" + describeExpr(f, x.Index, depth) + "]"
+	case *ast.SliceExpr:
+		lo, hi := "", ""
+		if x.Low != nil {
+			lo = describeExpr(f, x.Low, depth)
+		}
+		if x.High != nil {
+			hi = describeExpr(f, x.High, depth)
+		}
+		return describeExpr(f, x.X, depth) + "[" + lo + ":" + hi + "]"
+	case *ast.CompositeLit:
+		return "lit:" + namedTypeID(info.TypeOf(x))
+	case *ast.FuncLit:
+		return "funclit"
+	}
+	return "expr"
+}
+
+func recvOf(f *FuncInfo) *types.Var {
+	sig, _ := f.Obj.Type().(*types.Signature)
+	if sig == nil {
+		return nil
+	}
+	return sig.Recv()
+}
+
+type varDef struct {
+	rhs   ast.Expr // nil for range / unknown
+	index int      // index into a tuple-valued rhs, -1 when rhs is the value itself
+	rng   ast.Expr // range expression when defined by range
+	isKey bool
+}
+
+func (d varDef) describe(f *FuncInfo, depth int) string {
+	if d.rng != nil {
+		if d.isKey {
+			return "rangekey(" + describeExpr(f, d.rng, depth) + ")"
+		}
+		return "range(" + describeExpr(f, d.rng, depth) + ")"
+	}
+	if d.rhs == nil {
+		return "unknown"
+	}
+	s := describeExpr(f, d.rhs, depth)
+	if d.index >= 0 {
+		return s + "#" + itoa(d.index)
+	}
+	return s
+}
+
+func defsOfVarWithIndex(f *FuncInfo, v *types.Var) []varDef {
+	info := f.Info()
+	var out []varDef
+	ast.Inspect(f.Decl.Body, func(n ast.Node) bool {
+		switch s := n.(type) {
+		case *ast.AssignStmt:
+			for i, l := range s.Lhs {
+				id, ok := ast.Unparen(l).(*ast.Ident)
+				if !ok || (info.Defs[id] != v && info.Uses[id] != v) {
+					continue
+				}
+				if s.Tok != token.ASSIGN && s.Tok != token.DEFINE {
+					out = append(out, varDef{index: -1}) // op-assign
+					continue
+				}
+				if len(s.Lhs) == len(s.Rhs) {
+					out = append(out, varDef{rhs: s.Rhs[i], index: -1})
+				} else if len(s.Rhs) == 1 {
+					out = append(out, varDef{rhs: s.Rhs[0], index: i})
+				}
+			}
+		case *ast.ValueSpec:
+			for i, id := range s.Names {
+				if info.Defs[id] != v {
+					continue
+				}
+				if len(s.Values) == len(s.Names) {
+					out = append(out, varDef{rhs: s.Values[i], index: -1})
+				} else if len(s.Values) == 1 {
+					out = append(out, varDef{rhs: s.Values[0], index: i})
+				}
+				// no initial value: zero value, not a def of interest
+			}
+		case *ast.RangeStmt:
+			if id, ok := s.Key.(*ast.Ident); ok && (info.Defs[id] == v || info.Uses[id] == v) {
+				out = append(out, varDef{rng: s.X, isKey: true})
+			}
+			if id, ok := s.Value.(*ast.Ident); ok && (info.Defs[id] == v || info.Uses[id] == v) {
+				out = append(out, varDef{rng: s.X})
+			}
+		case *ast.IncDecStmt:
+			if id, ok := ast.Unparen(s.X).(*ast.Ident); ok && info.Uses[id] == v {
+				out = append(out, varDef{index: -1})
+			}
+		}
+		return true
+	})
+	return out
+}
+
+// compositeLits lists the composite literals of the given named type in f (pre-order).
+func compositeLits(f *FuncInfo, typeID string) []*ast.CompositeLit {
+	var out []*ast.CompositeLit
+	info := f.Info()
+	ast.Inspect(f.Decl.Body, func(n ast.Node) bool {
+		if cl, ok := n.(*ast.CompositeLit); ok && namedTypeID(info.TypeOf(cl)) == typeID {
+			out = append(out, cl)
+		}
+		return true
+	})
+	return out
+}
+
+// checkLitFields checks the field plumbing of a composite literal against expected origin descriptions.
+func checkLitFields(c *Ctx, rule string, f *FuncInfo, cl *ast.CompositeLit, key string, want map[string]string, why string) {
+	p := c.P
+	names := make([]string, 0, len(want))
+	for n := range want {
+		names = append(names, n)
+	}
+	sort.Strings(names)
+	for _, field := range names {
+		v := fieldOfCompositeLit(cl, field)
+		if v == nil {
+			c.fail(rule, key+"."+field, p.Pos(cl.Pos()), "field "+field+" is not set in the "+namedTypeID(f.Info().TypeOf(cl))+" literal: "+why)
+			continue
+		}
+		got := describeExpr(f, v, 0)
+		c.check(got == want[field], rule, key+"."+field, p.Pos(v.Pos()),
+			field+" <- "+got,
+			"field "+field+" is fed from `"+got+"` instead of `"+want[field]+"`: "+why)
+	}
+}
+
+// paramIndex is the position of v among the parameters of f, or -1.
+func paramIndex(f *FuncInfo, v *types.Var) int {
+	sig, _ := f.Obj.Type().(*types.Signature)
+	if sig == nil {
+		return -1
+	}
+	for i := 0; i < sig.Params().Len(); i++ {
+		if sig.Params().At(i) == v {
+			return i
+		}
+	}
+	return -1
+}
